@@ -17,14 +17,17 @@ Definition C17_full_statement : Prop :=
     (* exactly the documented components, in order, named from the entity name *)
     map skel cs = spec_skeleton e
     (* every internal reference resolves inside the expansion or the implicit imports *)
-    /\ closed cs = true
-    /\ (fields_ok e = true -> query_params_ok e = true -> command_params_ok e = true -> compile e = Ok cs)
+    (* (the user's own object references must name something: user_refs_ok) *)
+    /\ (user_refs_ok e (defined cs) = true ->
+        closed cs = true
+        /\ (fields_ok e = true -> query_params_ok e = true -> command_params_ok e = true -> compile e = Ok cs))
     (* the same entity annotation on every part that carries one *)
     /\ Forall (eq (snake_name e)) (psm_entities cs)
     /\ Forall (eq (snake_name e)) (service_entities cs)
     /\ Forall (eq (full_name e)) (topic_entities cs)
     (* the schemas file holds Keys, Data, State, EventType, Event with the documented shapes *)
-    /\ (exists fl, msgs_of_file 0 cs = [keys_msg e; data_msg e; state_msg e fl; event_type_msg e; event_msg e]).
+    /\ (exists fl, msgs_of_file 0 cs =
+          [keys_msg e; data_msg e; state_msg e fl; event_type_msg e; event_msg e] ++ map schema_msg (e_schemas e)).
 
 Theorem C17_full : C17_full_statement.
 Proof.
@@ -32,8 +35,8 @@ Proof.
   destruct (same_annotation e fl) as [A1 [A2 A3]].
   repeat split; try assumption.
   - apply expand_skeleton.
-  - apply expand_closed.
-  - intros Hok Hq Hc. rewrite (compile_expand e Hok Hq Hc). exact H.
+  - now apply expand_closed.
+  - intros Hok Hq Hc. pose proof (compile_errors e _ H) as E. rewrite H0, Hok, Hq, Hc in E. exact E.
   - exists fl. apply main_file_messages.
 Qed.
 Print Assumptions C17_full.
@@ -46,23 +49,39 @@ Proof. exact expand_skeleton. Qed.
 Print Assumptions C17_components.
 
 (* 2. closedness, for ALL declarations (no camel-stability hypothesis is needed after the
-      fix: definition and reference sites compute the same name) *)
-Theorem C17_closed : forall e fl, closed (expand_with e fl) = true.
+      fix: definition and reference sites compute the same name): every reference that
+      entity.go creates resolves; the file is closed exactly when the user's own object
+      references (data/event/command/summary/schema fields of type object:<Name>) do *)
+Theorem C17_closed : forall e fl,
+  user_refs_ok e (defined (expand_with e fl)) = true -> closed (expand_with e fl) = true.
 Proof. exact expand_closed. Qed.
 Print Assumptions C17_closed.
+
+Theorem C17_closed_only_if : forall e fl,
+  closed (expand_with e fl) = true -> user_refs_ok e (defined (expand_with e fl)) = true.
+Proof. exact closed_user_refs. Qed.
+Print Assumptions C17_closed_only_if.
+
+Theorem C17_closed_scalars : forall e fl,
+  forallb (fun u => negb (is_ref_field u)) (all_ufields e) = true -> closed (expand_with e fl) = true.
+Proof. exact expand_closed_scalars. Qed.
+Print Assumptions C17_closed_scalars.
 
 (* fields_ok: no user-declared field is both optional and required/primary (buildProperty);
    *_params_ok: every ":name" part of a method path is a request field (visitServiceMethodNode) *)
 Theorem C17_compile_is_expand : forall e,
+  (forall fl, user_refs_ok e (defined (expand_with e fl)) = true) ->
   fields_ok e = true -> query_params_ok e = true -> command_params_ok e = true -> compile e = expand e.
 Proof. exact compile_expand. Qed.
 Print Assumptions C17_compile_is_expand.
 
 Theorem C17_compile_errors : forall e cs, expand e = Ok cs ->
-  compile e = if fields_ok e then
-                if query_params_ok e && command_params_ok e then Ok cs
-                else Err "missing field in request"
-              else Err "cannot be both required and optional".
+  compile e = if user_refs_ok e (defined cs) then
+                if fields_ok e then
+                  if query_params_ok e && command_params_ok e then Ok cs
+                  else Err "missing field in request"
+                else Err "cannot be both required and optional"
+              else Err "type not found".
 Proof. exact compile_errors. Qed.
 Print Assumptions C17_compile_errors.
 
@@ -91,7 +110,8 @@ Print Assumptions C17_same_annotation.
 (* 4. State and Event: metadata + flattened keys + data/status, or + the event oneof *)
 Theorem C17_main_file : forall e fl,
   msgs_of_file 0 (expand_with e fl) =
-    [keys_msg e; data_msg e; state_msg e fl; event_type_msg e; event_msg e].
+    [keys_msg e; data_msg e; state_msg e fl; event_type_msg e; event_msg e]
+    ++ map schema_msg (e_schemas e).
 Proof. exact main_file_messages. Qed.
 Print Assumptions C17_main_file.
 
@@ -283,16 +303,18 @@ Definition C17_sample : entity :=
   mkE (bs "foo.v1") (bs "FooS") []
       [mkK (mkU (bs "fooId") (KKey true None None) false false) false;
        mkK (mkU (bs "accountId") (KKey false (Some (bs "other.v1", bs "account")) (Some (bs "account"))) true false) true]
-      [mkU (bs "name") (KScalar 9 (bs "string")) true false; mkU (bs "note") (KScalar 9 (bs "string")) false true]
+      [mkU (bs "name") (KScalar 9 (bs "string")) true false; mkU (bs "note") (KScalar 9 (bs "string")) false true;
+       mkU (bs "address") (KObject (bs "Address")) false false]
       [bs "ACTIVE"; bs "INACTIVE"]
       [mkEv (bs "Create") [mkU (bs "name") (KScalar 9 (bs "string")) false false]; mkEv (bs "Archive") []]
       [mkC None None [mkM (bs "DoIt") 2 (bs ":fooId/doit") [mkU (bs "fooId") (KKey false None None) false false] (Some []);
                       mkM (bs "Download") 1 (bs "dl") [] None]]
       [mkS [] [mkU (bs "name") (KScalar 9 (bs "string")) false false]]
-      (Some (mkQ true [bs "ACTIVE"])).
+      (Some (mkQ true [bs "ACTIVE"]))
+      [(bs "Address", [mkU (bs "street") (KScalar 9 (bs "string")) false false])].
 
 Example C17_example :
-  (exists cs, compile C17_sample = Ok cs /\ length cs = 21%nat)
+  (exists cs, compile C17_sample = Ok cs /\ length cs = 22%nat)
   /\ nth 0 (query_paths C17_sample) [] = bs "/foo/v1/foo_s/q/{foo_id}/{account_id}"
   /\ nth 2 (query_paths C17_sample) [] = bs "/foo/v1/foo_s/q/{foo_id}/{account_id}/events"
   /\ status_values (status_prefix C17_sample) (e_status C17_sample)
